@@ -17,6 +17,10 @@ pub struct T2Spec {
     pub profile: String,
     /// force colour (CLICOLOR_FORCE=1) for modes without --no-color
     pub force_color: bool,
+    /// the base file is given to the CLI under this name (bytes as hex, not necessarily UTF-8): a
+    /// copy of the base file is put next to it under that name first
+    #[serde(default, skip_serializing_if = "Option::is_none")]
+    pub raw_base_name: Option<String>,
 }
 
 #[derive(Clone, Debug, Serialize, Deserialize)]
